@@ -49,17 +49,33 @@ def make_evse(kind):
     return FiniteRatesEVSE("S", list(kind[1]))
 
 
-def run_impl(kind, cur, has_ev, pilot, voltage, period):
+class _NullAlg:
+    """minimal scheduler object accepted by Simulator (never run)"""
+    max_recompute = None
+
+    def register_interface(self, interface):
+        self.interface = interface
+
+    def run(self):
+        return {}
+
+
+def run_impl(kind, cur, has_ev, pilot, voltage, period, newcomer_offset=0):
+    from datetime import datetime
     from acnportal.acnsim.models import EV, Battery
     from acnportal.acnsim.models.evse import InvalidRateError, StationOccupiedError
+    from acnportal.acnsim.network import ChargingNetwork
+    from acnportal.acnsim import Simulator, Interface, EventQueue
     evse = make_evse(kind)
+    net = ChargingNetwork()
+    net.register_evse(evse, voltage, 0)
     calls = []
     ev = None
     if has_ev:
         ev = EV(0, 10, 50, "S", "sess", Battery(100, 0, 100))
         orig = ev.charge
         ev.charge = lambda *a: (calls.append([float(x) for x in a]), orig(*a))[1]
-        evse.plugin(ev)
+        net.plugin(ev)
     evse._current_pilot = cur
     before = (ev.energy_delivered, ev._battery._current_charge) if ev else None
     err = None
@@ -71,20 +87,39 @@ def run_impl(kind, cur, has_ev, pilot, voltage, period):
         err = type(e).__name__
     after = (ev.energy_delivered, ev._battery._current_charge) if ev else None
     out = dict(accepted=err is None, error=err, current_pilot=float(evse.current_pilot), charge_calls=calls,
-               max=float(evse.max_rate), min=float(evse.min_rate),
-               allow=[float(x) for x in evse.allowable_pilot_signals], is_cont=bool(evse.is_continuous),
                ev_touched=(before != after))
-    # advertised values must themselves be accepted (monitor uses this)
-    adv = [evse.max_rate, evse.min_rate] + list(evse.allowable_pilot_signals)
+    # what schedulers are told: through the network info store and the Interface
+    sim = Simulator(net, _NullAlg(), EventQueue(), datetime(2020, 1, 1), period=period, verbose=False)
+    iface = Interface(sim)
+    info = iface.infrastructure_info()
+    cont, allow = iface.allowable_pilot_signals("S")
+    out.update(max=float(iface.max_pilot_signal("S")), min=float(iface.min_pilot_signal("S")),
+               allow=[float(x) for x in allow], is_cont=bool(cont))
+    adv = [evse.max_rate, evse.min_rate] + list(evse.allowable_pilot_signals) + \
+          [float(info.max_pilot[0]), float(info.min_pilot[0])] + [float(x) for x in info.allowable_pilots[0]]
     out["advertised_accepted"] = [bool(evse._valid_rate(a)) for a in adv]
-    ev2 = EV(0, 10, 50, "S", "sess2", Battery(100, 0, 100))
+    out["iface_matches_evse"] = (out["max"] == float(evse.max_rate) and out["min"] == float(evse.min_rate)
+                                 and out["allow"] == [float(x) for x in evse.allowable_pilot_signals]
+                                 and float(info.max_pilot[0]) == out["max"] and float(info.min_pilot[0]) == out["min"])
+    # a newcomer arriving around the occupant's nominal departure, plugged in through the network
+    ev2 = EV(10 + newcomer_offset, 30 + newcomer_offset, 50, "S", "sess2", Battery(100, 0, 100))
     perr = None
+    pilot_before = float(evse.current_pilot)
     try:
-        evse.plugin(ev2)
+        net.plugin(ev2)
     except StationOccupiedError:
         perr = "StationOccupiedError"
+    except Exception as e:  # noqa
+        perr = type(e).__name__
     out["plugin_err"] = perr
     out["ev_after_plugin"] = None if evse.ev is None else (7 if evse.ev is ev else 99)
+    out["pilot_kept_on_refusal"] = (perr is None) or float(evse.current_pilot) == pilot_before
+    ev3 = EV(0, 10, 50, "nowhere", "sess3", Battery(100, 0, 100))
+    try:
+        net.plugin(ev3)
+        out["unknown_station_err"] = None
+    except Exception as e:  # noqa
+        out["unknown_station_err"] = type(e).__name__
     return out
 
 
@@ -128,7 +163,8 @@ def gen_cases(rng, n, tier):
             voltage = rng.choice([120, 208, 240, 277])
             period = rng.choice([1, 5, 15])
             amb = any(abs(F(pilot) - t) < F(1, 10**9) for t in ths)
-            impl = run_impl(kind, cur, has_ev, pilot, voltage, period)
+            off = rng.choice([-5, -1, 0, 0, 1, 5])
+            impl = run_impl(kind, cur, has_ev, pilot, voltage, period, off)
             coq = ("{| c_kind := %s; c_cur := %s; c_ev := %s; c_pilot := %s; c_voltage := %s; c_period := %s;\n"
                    "   i_accepted := %s; i_error := %s; i_current_pilot := %s; i_charge_calls := %s;\n"
                    "   i_max := %s; i_min := %s; i_allow := %s; i_is_cont := %s; i_plugin_err := %s; i_ev_after_plugin := %s |}") % (
@@ -137,7 +173,7 @@ def gen_cases(rng, n, tier):
                 coq_list([coq_list([q(x) for x in c]) for c in impl["charge_calls"]]),
                 q(impl["max"]), q(impl["min"]), coq_list([q(x) for x in impl["allow"]]), coq_bool(impl["is_cont"]),
                 coq_opt(impl["plugin_err"], coq_str), coq_opt(impl["ev_after_plugin"], lambda v: "%d%%Z" % v))
-            inp = dict(kind=kind, cur=cur, has_ev=has_ev, pilot=pilot, voltage=voltage, period=period)
+            inp = dict(kind=kind, cur=cur, has_ev=has_ev, pilot=pilot, voltage=voltage, period=period, newcomer_offset=off)
             cases.append(dict(input=inp, impl=impl, coq=coq, ambiguous=amb, kind="%s/%s" % (kind[0], "ev" if has_ev else "noev"),
                               sig=[kind, pilot, has_ev], nontrivial=True))
     return cases[:n]
@@ -168,7 +204,12 @@ def monitor(case):
             return "rejected pilot changed state"
     if ordered and not all(i["advertised_accepted"]):
         return "an advertised value is not accepted"
-    if inp["has_ev"] and (i["plugin_err"] != "StationOccupiedError" or i["ev_after_plugin"] != 7):
+    if not i["iface_matches_evse"]:
+        return "Interface / infrastructure info advertise other limits than the EVSE has"
+    if i["unknown_station_err"] != "KeyError":
+        return "plugin at an unregistered station gave %s" % i["unknown_station_err"]
+    if inp["has_ev"] and (i["plugin_err"] != "StationOccupiedError" or i["ev_after_plugin"] != 7
+                          or not i["pilot_kept_on_refusal"]):
         return "plugin into occupied station not refused / occupant replaced"
     return None
 
@@ -187,5 +228,5 @@ def search(rng, budget_s, broken):
 def replay(w):
     inp = w["case"]
     kind = tuple(tuple(x) if isinstance(x, list) else x for x in inp["kind"])
-    impl = run_impl(kind, inp["cur"], inp["has_ev"], inp["pilot"], inp["voltage"], inp["period"])
+    impl = run_impl(kind, inp["cur"], inp["has_ev"], inp["pilot"], inp["voltage"], inp["period"], inp.get("newcomer_offset", 0))
     return monitor(dict(input=dict(inp, kind=kind), impl=impl))
